@@ -400,7 +400,7 @@ func c10Sections(thorough bool) (secs [][]byte, descs []string, uniqFrom []int) 
 	tags := []uint64{0, 1<<64 - 1}
 	if thorough {
 		tags = []uint64{0, 1, 1<<32 - 1, 1 << 32, 1<<64 - 1}
-		counts = append(counts, 3, 1<<32 - 1, 1 << 32, 1<<63 - 1)
+		counts = append(counts, 3, 1<<32-1, 1<<32, 1<<63-1)
 	}
 	overlong := bytes.Repeat([]byte{0xff}, 10)
 	overlong = append(overlong, 0x01) // 11-byte varint: binary.Uvarint reports overflow
